@@ -81,4 +81,3 @@ func c01BurnBoundaryProbe(c *fw.Case) {
 	c.Count("burns_that_emptied_the_books_exactly", int64(exact))
 	c.Nontrivial(exact > 0)
 }
-
